@@ -1034,6 +1034,9 @@ def search(ctx):
 def replay(obj):
     r = obj.get('replay', {})
     kind = r.get('kind')
+    if r.get('kind') in ('engine-explore', 'engine-trace', 'engine-rerun'):
+        from harness import engine_trace as _et     # engine-level replays (exploration, traces, rerun trees)
+        return _et.replay_case(obj)
     ctx = core.Ctx('C06', 'quick', 0)
     if kind == 'executor':
         c = r['case']
